@@ -1,56 +1,105 @@
 #!/usr/bin/env python3
-"""bin/selftest.py [--only <substring>]: applies every stored breakage (reverted repairs in seeded/fix-reverts, seeded
-changes in seeded/<id>/) to /repo in turn, runs the quick checks named for it, restores /repo, and writes
-seeded/RESULTS.md. A breakage counts as caught when at least one named check prints a VIOLATION line.
+"""bin/selftest.py [--cases a,b,...] [--todo] [--report]
+
+Applies stored breakages (reverted repairs in seeded/fix-reverts, seeded changes in seeded/<id>/) to /repo in turn
+(git -C /repo apply), runs the quick checks named for each, restores /repo straight afterwards, and records one line per
+case in seeded/results.jsonl (case, result, rows, /repo HEAD, /verif HEAD, time). seeded/RESULTS.md is regenerated from
+that file after every case, so an interrupted run loses nothing. A breakage counts as caught when at least one named check
+prints a VIOLATION line; a tool error (exit 2) is reported as such, never as caught or missed.
+  --cases   only these cases (names as in RESULTS.md: 'revert-<commit>' or a seeded directory name)
+  --todo    only cases that have no result yet for the current /repo HEAD
+  --report  only regenerate RESULTS.md
 Never leaves /repo modified (git checkout at the end of every case)."""
 import json, os, subprocess, sys, glob, time
 
+VERIF = "/verif"
+RESULTS = f"{VERIF}/seeded/results.jsonl"
 REVERTS = {
     "79238dd": ["C05", "C06", "C07"], "e5830d7": ["C05"], "ee30611": ["C09"], "c04d532": ["C16", "C10"], "ca6c5cb": ["C10"],
-    "18a7051": ["C13"], "dda5d32": ["C13"], "703fb0a": ["C15"], "f8af41b": ["C15"], "f96eb56": ["C12"], "5436b88": ["C16", "C13"], "d3b0444": ["C13"],
+    "18a7051": ["C13"], "dda5d32": ["C13"], "703fb0a": ["C15"], "f8af41b": ["C15"], "f96eb56": ["C12"], "5436b88": ["C16", "C13"],
+    "d3b0444": ["C13"],
 }
 
 def sh(cmd, **kw):
     return subprocess.run(cmd, shell=True, capture_output=True, text=True, **kw)
 
+def head(path):
+    return sh(f"git -C {path} rev-parse --short HEAD").stdout.strip()
+
 def run_case(name, patch, checks):
     if sh("git -C /repo diff --quiet").returncode != 0:
-        return name, "SKIPPED (/repo dirty)", []
+        return "SKIPPED (/repo dirty)", []
     if sh(f"git -C /repo apply {patch}").returncode != 0:
-        return name, "patch does not apply at the current HEAD", []
+        return "patch does not apply at the current HEAD", []
     rows = []
     try:
         for c in checks:
             t0 = time.time()
-            p = sh(f"cd /verif && VERIF_TIER=quick bin/check {c}")
+            p = sh(f"cd {VERIF} && VERIF_TIER=quick bin/check {c}")
             viol = [l for l in p.stdout.splitlines() if l.startswith("VIOLATION")]
-            rows.append((c, p.returncode, len(viol), round(time.time() - t0)))
+            rows.append([c, p.returncode, len(viol), round(time.time() - t0)])
             if viol:
                 break
     finally:
         sh("git -C /repo checkout -- . && git -C /repo clean -fdq -- akd akd_core")
     caught = [r for r in rows if r[2] > 0]
-    return name, ("caught by " + caught[0][0] if caught else "MISSED"), rows
+    if caught:
+        return "caught by " + caught[0][0], rows
+    if any(r[1] == 2 for r in rows):
+        return "TOOL ERROR (no verdict)", rows
+    return "MISSED", rows
 
-def main():
-    only = sys.argv[sys.argv.index("--only") + 1] if "--only" in sys.argv else ""
+def all_cases():
     cases = []
     for c, checks in REVERTS.items():
-        cases.append((f"revert of fix {c}", f"/verif/seeded/fix-reverts/revert_{c}.diff", checks))
-    for d in sorted(glob.glob("/verif/seeded/C*")):
+        cases.append((f"revert-{c}", f"{VERIF}/seeded/fix-reverts/revert_{c}.diff", checks))
+    for d in sorted(glob.glob(f"{VERIF}/seeded/C*")):
         meta = json.load(open(f"{d}/meta.json"))
         patch = f"{d}/patch_rebased.diff" if os.path.exists(f"{d}/patch_rebased.diff") else f"{d}/patch.diff"
         cases.append((os.path.basename(d), patch, meta["checks_run"]))
+    return cases
+
+def load_results():
+    res = {}
+    if os.path.exists(RESULTS):
+        for l in open(RESULTS):
+            if l.strip():
+                r = json.loads(l)
+                res[r["case"]] = r          # the latest line per case wins
+    return res
+
+def report():
+    res = load_results()
     out = ["# Self-test: stored breakages against the quick checks", "",
-           "| Breakage | Result | Checks run (exit code, VIOLATION lines, seconds) |", "|---|---|---|"]
-    for name, patch, checks in cases:
-        if only and only not in name:
+           "Each case: `git -C /repo apply <patch>`, the named quick checks, `git -C /repo checkout -- .`. Latest result per case",
+           "(bin/selftest.py; raw lines in results.jsonl).", "",
+           "| Breakage | Result | Checks run (exit code, VIOLATION lines, seconds) | /repo HEAD | /verif HEAD |", "|---|---|---|---|---|"]
+    for name, _, _ in all_cases():
+        r = res.get(name)
+        if not r:
+            out.append(f"| {name} | (not run) | | | |")
             continue
-        n, res, rows = run_case(name, patch, checks)
-        line = f"| {n} | {res} | " + "; ".join(f"{c}: rc={rc}, {v} violations, {s}s" for c, rc, v, s in rows) + " |"
-        print(line, flush=True)
-        out.append(line)
-    if not only:
-        open("/verif/seeded/RESULTS.md", "w").write("\n".join(out) + "\n")
+        rows = "; ".join(f"{c}: rc={rc}, {v} violations, {s}s" for c, rc, v, s in r["rows"])
+        out.append(f"| {name} | {r['result']} | {rows} | {r['repo_head']} | {r['verif_head']} |")
+    open(f"{VERIF}/seeded/RESULTS.md", "w").write("\n".join(out) + "\n")
+
+def main():
+    if "--report" in sys.argv:
+        report(); return
+    only = sys.argv[sys.argv.index("--cases") + 1].split(",") if "--cases" in sys.argv else None
+    todo = "--todo" in sys.argv
+    have = load_results()
+    rh = head("/repo")
+    for name, patch, checks in all_cases():
+        if only and name not in only:
+            continue
+        if todo and name in have and have[name]["repo_head"] == rh and not have[name]["result"].startswith(("TOOL", "SKIPPED")):
+            continue
+        result, rows = run_case(name, patch, checks)
+        rec = {"case": name, "result": result, "rows": rows, "repo_head": rh, "verif_head": head(VERIF), "at": time.strftime("%Y-%m-%dT%H:%M:%SZ", time.gmtime())}
+        with open(RESULTS, "a") as f:
+            f.write(json.dumps(rec) + "\n")
+        print(f"{name}: {result} {rows}", flush=True)
+        report()
 
 main()
